@@ -1,6 +1,6 @@
 (* C39 -- One interpreter can safely be used from many goroutines.
    Property theorems only; every proof is [exact <lemma>]. *)
-From verif Require Import lib.Base model.C39 proofs.C39_proofs proofs.C39_serial proofs.C39_disjoint proofs.C39_full proofs.C39_complete.
+From verif Require Import lib.Base model.C39 proofs.C39_proofs proofs.C39_serial proofs.C39_disjoint proofs.C39_full proofs.C39_complete proofs.C39_snapshot.
 Open Scope N_scope.
 
 (* For ALL job sets (Eval / Check / Call) that import only modules that are
@@ -71,43 +71,87 @@ Proof. exact snapshot_is_current. Qed.
 Print Assumptions C39_snapshot_is_current.
 
 (* Serializability of self-contained evaluations (every name a program reads
-   or assigns is declared earlier in the same program; imports are free):
-   for ALL such job sets, initial states and interleavings that run every
-   thread to completion, there is a serial schedule - each thread runs alone in
-   one uninterrupted block, in some order - that also runs every thread to
-   completion and has EXACTLY the same observation (final variables, every
-   job's error flag and value outputs). *)
+   or assigns is declared earlier in the same program; imports are free) mixed
+   with static checks of ARBITRARY programs: for ALL such job sets, initial
+   states and interleavings that run every thread to completion, the serial
+   schedule that runs each thread alone in one uninterrupted block, in the
+   LINEARIZATION ORDER (an Eval at the moment it replaced ev.global, a Check at
+   the moment it read its snapshot under the read lock), also runs every thread
+   to completion and has EXACTLY the same observation (final variables, every
+   job's error flag - the verdict of every Check - and value outputs). *)
 Theorem C39_serializable_disjoint : forall g0 st0 mods0 js sched,
-  eval_jobs js ->
+  mixed_jobs js ->
   let c0 := init g0 st0 mods0 js in
   let c := run sched c0 in
   (forall t, t_ops (c_thr c t) = []) ->
-  exists order F,
+  let order := rev (c_lin c) in
+  exists F,
     NoDup order
     /\ (forall t, t_ops (c_thr (run (blocks F order) c0) t) = [])
     /\ obs_of (run (blocks F order) c0) (length js) = obs_of c (length js).
 Proof. exact serializable_disjoint. Qed.
 Print Assumptions C39_serializable_disjoint.
 
-(* PLANNED with Check jobs mixed in, full statement (not proved, see
-   checks/C39.md):
-     forall g0 st0 mods0 js sched, (forall j, In j js -> disjoint_job j) ->
-       let c := run sched (init g0 st0 mods0 js) in
-       (forall t, t_ops (c_thr c t) = []) ->
-       exists order F, NoDup order /\ obs_of (run (blocks F order) c0) (length js) = obs_of c (length js)
-   (it needs the position of every Check relative to the commits it saw).
-   Proved for that class: in ALL interleavings every variable access is made
-   by the thread that declared the variable (no value flows between
+(* A Check linearizes at its snapshot: in every interleaving a finished Check
+   has taken its place in the linearization order, compiled against exactly the
+   namespace produced by the evaluations that precede it there, and reports
+   whether its program compiles against that namespace. *)
+Theorem C39_check_linearizes : forall g0 st0 mods0 js sched t p,
+  mixed_jobs js ->
+  let c := run sched (init g0 st0 mods0 js) in
+  check_prog js t = Some p -> t_ops (c_thr c t) = [] ->
+  In t (c_lin c)
+  /\ t_snap (c_thr c t) = ns_after (eval_prog js) (before t (rev (c_lin c))) g0
+  /\ t_err (c_thr c t) = is_none (compile t 0 (t_snap (c_thr c t)) p).
+Proof. exact check_linearizes. Qed.
+Print Assumptions C39_check_linearizes.
+
+(* Call linearizes likewise, for ALL job sets (no restriction at all) and ALL
+   interleavings: a finished Call has taken its place in the linearization
+   order at its read of ev.global under the read lock (Evaler.Global()), and
+   the namespace it ran against is exactly the one produced by the
+   evaluations that precede it there. *)
+Theorem C39_call_linearizes : forall g0 st0 mods0 js sched t p,
+  let c := run sched (init g0 st0 mods0 js) in
+  nth_error js (N.to_nat t) = Some (JCall p) -> t_ops (c_thr c t) = [] ->
+  In t (c_lin c)
+  /\ t_snap (c_thr c t) = ns_after (eval_prog js) (before t (rev (c_lin c))) g0.
+Proof. exact call_linearizes. Qed.
+Print Assumptions C39_call_linearizes.
+
+(* The same for every thread that is not an Eval (Check or Call), finished or
+   not, in ALL job sets: from the moment it is in the linearization order its
+   snapshot is the namespace of the prefix before it. *)
+Theorem C39_snapshot_linearizes : forall g0 st0 mods0 js sched t,
+  let c := run sched (init g0 st0 mods0 js) in
+  eval_prog js t = None -> In t (c_lin c) ->
+  t_snap (c_thr c t) = ns_after (eval_prog js) (before t (rev (c_lin c))) g0.
+Proof. exact snapshot_linearizes. Qed.
+Print Assumptions C39_snapshot_linearizes.
+
+(* The linearization order itself, ALL job sets and interleavings: no thread
+   appears twice, the commits are exactly its Evals, and the current namespace
+   is the one produced by the whole order. *)
+Theorem C39_lin_order : forall g0 st0 mods0 js sched,
+  let c := run sched (init g0 st0 mods0 js) in
+  NoDup (c_lin c)
+  /\ c_commits c = filter (fun t => is_some (eval_prog js t)) (c_lin c)
+  /\ c_global c = ns_after (eval_prog js) (rev (c_lin c)) g0.
+Proof. exact lin_order_facts. Qed.
+Print Assumptions C39_lin_order.
+
+(* In ALL interleavings (complete or not) of that class every variable access
+   is made by the thread that declared the variable (no value flows between
    evaluations) and the namespace is the one of the serial order in which the
    evaluations committed. *)
-Theorem C39_serializable_disjoint_partial : forall g0 st0 mods0 js sched,
+Theorem C39_no_flow_between_disjoint_evals : forall g0 st0 mods0 js sched,
   (forall j, In j js -> disjoint_job j) ->
   let c := run sched (init g0 st0 mods0 js) in
   Forall own_event (c_trace c)
   /\ c_global c = ns_after (eval_prog js) (rev (c_commits c)) g0
   /\ NoDup (c_commits c).
 Proof. exact serializable_disjoint_partial. Qed.
-Print Assumptions C39_serializable_disjoint_partial.
+Print Assumptions C39_no_flow_between_disjoint_evals.
 
 (* The statement "every observation of every interleaving is the outcome of
    some serial order of the jobs" is FALSE of the faithful model: the new
@@ -159,4 +203,13 @@ Example C39_ex_interleaved_complete :
                (init [] [] [] [JEval [SDecl 1 1; SGet 1]; JEval [SDecl 1 2; SGet 1]]) in
   (t_ops (c_thr c 0), t_ops (c_thr c 1), obs_of c 2, c_commits c)
   = ([], [], mkObs [(1, 2)] [mkRes false [1]; mkRes false [2]], [1; 0]).
+Proof. vm_compute. reflexivity. Qed.
+
+(* a Check that takes its snapshot between the commits of two evaluations sees
+   the first declaration but not the second *)
+Example C39_ex_check_between :
+  let js := [JEval [SDecl 1 1]; JCheck [SGet 1; SGet 2]; JEval [SDecl 2 2]; JCheck [SGet 1]] in
+  let c := run [0;0;0;0;0;0; 1;1;1;1; 3;3;3;3; 2;2;2;2;2;2; 1;1; 3;3; 0; 2]
+               (init [] [] [] js) in
+  (c_lin c, map (fun r => r_err r) (o_res (obs_of c 4))) = ([2; 3; 1; 0], [false; true; false; false]).
 Proof. vm_compute. reflexivity. Qed.
